@@ -4,11 +4,19 @@ package config
 
 import (
 	"fmt"
+	"io"
+	"reflect"
+	"strconv"
+	"strings"
 	"testing"
+	"testing/fstest"
 
+	"github.com/sirupsen/logrus"
 	"pgregory.net/rapid"
 	"verif.local/vlib"
 	"verif.local/vlib/refglob"
+
+	"hop.computer/hop/portforwarding"
 )
 
 type c20hCase struct {
@@ -54,4 +62,386 @@ func c20hGen(t *rapid.T) c20hCase {
 
 func TestVerifC20MatchHost(t *testing.T) {
 	vlib.Drive(t, vlib.Spec[c20hCase]{ID: "C20", Quick: 10000, Gen: c20hGen, Run: c20hRun})
+}
+
+// ---------------------------------------------------------------------------
+// Sequences of lookups on ONE configuration object.
+//
+// "A client applies exactly the host blocks whose patterns match the requested
+// host": the blocks applied are a function of the requested host and of the
+// configuration, not of what was looked up before on the same object. A case is
+// a configuration (Global + host blocks, each setting a generated subset of the
+// options, built as a struct literal or rendered to TOML and parsed by the real
+// loader) and a sequence of lookups; between lookups the caller may do with the
+// returned block what flags.mergeClientFlagsAndConfig / mergeAddresses do
+// (assign address fields, Cmd/UsePty/forwards, MergeWith a second lookup, Unwrap).
+//
+// Oracle, per lookup:
+//   - the returned block equals the model merge (Global, then every block one of
+//     whose patterns matches per the reference matcher, in order; MergeWith's
+//     documented "non-default values overwrite, CAFiles accumulate");
+//   - it equals the block returned by the same lookup on a freshly built copy of
+//     the configuration (a second, model-free statement of the same thing);
+//   - the configuration object renders exactly as a never-used copy, after the
+//     lookup and after whatever the caller did to the returned block;
+//   - a block handed out earlier and not touched by the caller still renders as
+//     it did when it was returned.
+
+type c20sBlock struct {
+	Patterns     []string `json:"patterns,omitempty"`
+	Hostname     string   `json:"hostname,omitempty"` // "" = not set
+	User         string   `json:"user,omitempty"`
+	Key          string   `json:"key,omitempty"`
+	Cmd          string   `json:"cmd,omitempty"`
+	Port         int      `json:"port,omitempty"` // 0 = not set
+	CAFiles      []string `json:"cafiles,omitempty"`
+	AutoSelfSign int      `json:"autoselfsign,omitempty"` // 0 not set, 1 false, 2 true
+}
+
+type c20sOp struct {
+	Host  string `json:"host"`
+	After int    `json:"after"` // what the caller does with the returned block (c20sAfter*)
+}
+
+const (
+	c20sAfterNothing = iota
+	c20sAfterAddress // flags.mergeAddresses: Hostname, Port, User assigned
+	c20sAfterFlags   // flags.mergeClientFlagsAndConfig: Cmd, UsePty, forwards assigned
+	c20sAfterMerge   // previous result .MergeWith(this result) (the default-config / user-config pattern)
+	c20sAfterUnwrap  // Unwrap() only
+	c20sAfterKinds
+)
+
+type c20sCase struct {
+	Via    string      `json:"via"` // "literal" | "toml"
+	Global c20sBlock   `json:"global"`
+	Blocks []c20sBlock `json:"blocks"`
+	Ops    []c20sOp    `json:"ops"`
+}
+
+func c20sPtr(s string) *string {
+	if s == "" {
+		return nil
+	}
+	return &s
+}
+
+func (b c20sBlock) literal() HostConfigOptional {
+	h := HostConfigOptional{
+		Hostname: c20sPtr(b.Hostname), User: c20sPtr(b.User), Key: c20sPtr(b.Key), Cmd: c20sPtr(b.Cmd), Port: b.Port,
+	}
+	if len(b.Patterns) > 0 {
+		h.Patterns = append([]string(nil), b.Patterns...)
+	}
+	if len(b.CAFiles) > 0 {
+		h.CAFiles = append([]string(nil), b.CAFiles...)
+	}
+	if b.AutoSelfSign != 0 {
+		x := b.AutoSelfSign == 2
+		h.AutoSelfSign = &x
+	}
+	return h
+}
+
+func (b c20sBlock) toml(sb *strings.Builder) {
+	list := func(name string, l []string) {
+		if len(l) == 0 {
+			return
+		}
+		q := make([]string, len(l))
+		for i, s := range l {
+			q[i] = strconv.Quote(s)
+		}
+		fmt.Fprintf(sb, "%s = [%s]\n", name, strings.Join(q, ", "))
+	}
+	str := func(name, s string) {
+		if s != "" {
+			fmt.Fprintf(sb, "%s = %s\n", name, strconv.Quote(s))
+		}
+	}
+	list("Patterns", b.Patterns)
+	str("Hostname", b.Hostname)
+	str("User", b.User)
+	str("Key", b.Key)
+	str("Cmd", b.Cmd)
+	if b.Port != 0 {
+		fmt.Fprintf(sb, "Port = %d\n", b.Port)
+	}
+	list("CAFiles", b.CAFiles)
+	if b.AutoSelfSign != 0 {
+		fmt.Fprintf(sb, "AutoSelfSign = %v\n", b.AutoSelfSign == 2)
+	}
+}
+
+// c20sBuild makes a new, independent configuration object from the case data.
+func c20sBuild(c c20sCase) (*ClientConfig, error) {
+	if c.Via != "toml" {
+		cfg := &ClientConfig{Global: c.Global.literal()}
+		for _, b := range c.Blocks {
+			cfg.Hosts = append(cfg.Hosts, b.literal())
+		}
+		return cfg, nil
+	}
+	var sb strings.Builder
+	sb.WriteString("[Global]\n")
+	c.Global.toml(&sb)
+	for _, b := range c.Blocks {
+		sb.WriteString("\n[[Hosts]]\n")
+		b.toml(&sb)
+	}
+	old := fileSystem
+	defer func() { fileSystem = old }()
+	fileSystem = fstest.MapFS{"verif/client.toml": &fstest.MapFile{Data: []byte(sb.String())}}
+	return LoadClientConfigFromFile("verif/client.toml")
+}
+
+// c20sModel is the property: Global, then exactly the matching blocks, in order.
+func c20sModel(c c20sCase, host string) (m c20sBlock, applied []int) {
+	m = c.Global
+	m.Patterns = nil
+	m.CAFiles = append([]string(nil), c.Global.CAFiles...)
+	for i, b := range c.Blocks {
+		hit := false
+		for _, p := range b.Patterns {
+			if refglob.Match(p, host) {
+				hit = true
+				break
+			}
+		}
+		if !hit {
+			continue
+		}
+		applied = append(applied, i)
+		if b.Hostname != "" {
+			m.Hostname = b.Hostname
+		}
+		if b.User != "" {
+			m.User = b.User
+		}
+		if b.Key != "" {
+			m.Key = b.Key
+		}
+		if b.Cmd != "" {
+			m.Cmd = b.Cmd
+		}
+		if b.Port != 0 {
+			m.Port = b.Port
+		}
+		if b.AutoSelfSign != 0 {
+			m.AutoSelfSign = b.AutoSelfSign
+		}
+		m.CAFiles = append(m.CAFiles, b.CAFiles...)
+	}
+	return m, applied
+}
+
+// c20sRender prints a value field by field, following pointers; a nil slice and
+// an empty slice print alike (nothing in the property distinguishes them).
+func c20sRender(x any) string {
+	var sb strings.Builder
+	var walk func(rv reflect.Value)
+	walk = func(rv reflect.Value) {
+		switch rv.Kind() {
+		case reflect.Pointer, reflect.Interface:
+			if rv.IsNil() {
+				sb.WriteString("-")
+				return
+			}
+			sb.WriteString("&")
+			walk(rv.Elem())
+		case reflect.Struct:
+			sb.WriteString("{")
+			for i := 0; i < rv.NumField(); i++ {
+				f := rv.Field(i)
+				if f.Kind() == reflect.Pointer || f.Kind() == reflect.Interface || f.Kind() == reflect.Slice {
+					if f.IsNil() || (f.Kind() == reflect.Slice && f.Len() == 0) {
+						continue // unset options are left out to keep messages readable
+					}
+				}
+				fmt.Fprintf(&sb, "%s:", rv.Type().Field(i).Name)
+				walk(f)
+				sb.WriteString(" ")
+			}
+			sb.WriteString("}")
+		case reflect.Slice, reflect.Array:
+			sb.WriteString("[")
+			for i := 0; i < rv.Len(); i++ {
+				walk(rv.Index(i))
+				sb.WriteString(",")
+			}
+			sb.WriteString("]")
+		case reflect.String:
+			sb.WriteString(strconv.Quote(rv.String()))
+		default:
+			fmt.Fprintf(&sb, "%v", rv)
+		}
+	}
+	rv := reflect.ValueOf(x)
+	for rv.Kind() == reflect.Pointer && !rv.IsNil() {
+		rv = rv.Elem()
+	}
+	walk(rv)
+	return sb.String()
+}
+
+func c20sRun(c c20sCase, v *vlib.Verdict) {
+	logrus.SetOutput(io.Discard)
+	pristine, err := c20sBuild(c)
+	if err != nil {
+		v.Discard = true
+		v.Note = "configuration did not load: " + err.Error()
+		return
+	}
+	cfg, _ := c20sBuild(c)
+	wantCfg := c20sRender(pristine)
+	if got := c20sRender(cfg); got != wantCfg {
+		v.Inconclusive = "two builds of the same case differ: " + got + " / " + wantCfg
+		return
+	}
+	type kept struct {
+		i       int
+		blk     *HostConfigOptional
+		asGiven string
+		touched bool
+	}
+	var handed []*kept
+	appliedSets := map[string]bool{}
+	settingApplied := false
+	for i, op := range c.Ops {
+		model, applied := c20sModel(c, op.Host)
+		want := c20sRender(model.literal())
+		appliedSets[fmt.Sprint(applied)] = true
+		for _, bi := range applied {
+			b := c.Blocks[bi]
+			if b.Hostname != "" || b.User != "" || b.Key != "" || b.Cmd != "" || b.Port != 0 || len(b.CAFiles) > 0 || b.AutoSelfSign != 0 {
+				settingApplied = true
+			}
+		}
+		var got, single *HostConfigOptional
+		if vlib.Guard(v, func() { got = cfg.MatchHost(op.Host) }) {
+			return
+		}
+		fresh, _ := c20sBuild(c)
+		if vlib.Guard(v, func() { single = fresh.MatchHost(op.Host) }) {
+			return
+		}
+		gs, ss := c20sRender(got), c20sRender(single)
+		switch {
+		case ss != want:
+			v.Failf("C20:matchhost-wrong-blocks", "MatchHost(%q) on a new configuration %s returned %s, model (blocks %v) says %s", op.Host, wantCfg, ss, applied, want)
+			return
+		case gs != want:
+			v.Failf("C20:matchhost-result-depends-on-earlier-lookups", "lookup #%d MatchHost(%q) on a configuration that had answered %d lookups returned %s; a new copy of the same configuration returns %s (blocks %v match)", i, op.Host, i, gs, ss, applied)
+			return
+		}
+		if now := c20sRender(cfg); now != wantCfg {
+			v.Failf("C20:matchhost-modifies-configuration", "after lookup #%d MatchHost(%q) the configuration object reads %s, before the lookups it read %s", i, op.Host, now, wantCfg)
+			return
+		}
+		k := &kept{i: i, blk: got, asGiven: gs}
+		// the caller's use of the returned block
+		vlib.Guard(v, func() {
+			switch op.After {
+			case c20sAfterAddress:
+				h, u := "addr-"+op.Host, "user-"+op.Host
+				got.Hostname, got.Port, got.User = &h, 7000+i, &u
+				k.touched = true
+			case c20sAfterFlags:
+				cmd, pty := "cmd-"+op.Host, i%2 == 0
+				got.Cmd, got.UsePty = &cmd, &pty
+				got.LocalFwds, got.RemoteFwds = &portforwarding.Forward{}, nil
+				k.touched = true
+			case c20sAfterMerge:
+				if len(handed) > 0 {
+					p := handed[len(handed)-1]
+					p.blk.MergeWith(got)
+					p.touched = true
+				}
+			case c20sAfterUnwrap:
+				_ = got.Unwrap()
+			}
+		})
+		if !v.OK() {
+			return
+		}
+		handed = append(handed, k)
+		if now := c20sRender(cfg); now != wantCfg {
+			v.Failf("C20:configuration-shares-state-with-returned-block", "after the caller used the block returned by lookup #%d (use kind %d) the configuration object reads %s, before it read %s", i, op.After, now, wantCfg)
+			return
+		}
+		for _, p := range handed {
+			if !p.touched && c20sRender(p.blk) != p.asGiven {
+				v.Failf("C20:matchhost-result-changed-by-later-lookup", "the block returned by lookup #%d read %s when returned and reads %s after lookup #%d MatchHost(%q)", p.i, p.asGiven, c20sRender(p.blk), i, op.Host)
+				return
+			}
+		}
+	}
+	v.NonTrivial = len(c.Ops) >= 2 && len(appliedSets) >= 2 && settingApplied
+	v.Labelf("via=%s", c.Via)
+	v.Labelf("lookups=%d", len(c.Ops))
+	v.Labelf("distinct-applied-sets=%d", len(appliedSets))
+}
+
+func c20sGen(t *rapid.T) c20sCase {
+	pat := rapid.StringMatching(`[ab*]{0,5}|[ab]{1,3}\*|\*[ab]{1,3}|[ab]{0,2}\*[ab]{1,2}`)
+	block := func(tag string, global bool) c20sBlock {
+		var b c20sBlock
+		if !global {
+			b.Patterns = rapid.SliceOfN(pat, 1, 3).Draw(t, tag+"-patterns")
+		}
+		set := 0 // one bit per option
+		for j, on := range rapid.SliceOfN(rapid.Bool(), 7, 7).Draw(t, tag+"-set") {
+			if on {
+				set |= 1 << j
+			}
+		}
+		if set&1 != 0 {
+			b.Hostname = tag + ".host"
+		}
+		if set&2 != 0 {
+			b.User = tag + "-user"
+		}
+		if set&4 != 0 {
+			b.Key = "/keys/" + tag + ".pem"
+		}
+		if set&8 != 0 {
+			b.Cmd = "run-" + tag
+		}
+		if set&16 != 0 {
+			b.Port = rapid.IntRange(1, 65535).Draw(t, tag+"-port")
+		}
+		if set&32 != 0 {
+			n := rapid.IntRange(1, 2).Draw(t, tag+"-ncas")
+			for j := 0; j < n; j++ {
+				b.CAFiles = append(b.CAFiles, fmt.Sprintf("/ca/%s-%d.pem", tag, j))
+			}
+		}
+		if set&64 != 0 {
+			b.AutoSelfSign = rapid.IntRange(1, 2).Draw(t, tag+"-autoselfsign")
+		}
+		return b
+	}
+	c := c20sCase{Via: rapid.SampledFrom([]string{"literal", "toml"}).Draw(t, "via")}
+	c.Global = block("global", true)
+	nb := rapid.SampledFrom([]int{0, 1, 2, 2, 3, 3, 4, 5}).Draw(t, "nblocks")
+	for i := 0; i < nb; i++ {
+		c.Blocks = append(c.Blocks, block(fmt.Sprintf("blk%d", i), false))
+	}
+	host := rapid.StringMatching(`[ab]{1,6}`)
+	nops := rapid.SampledFrom([]int{1, 2, 2, 3, 3, 4, 5, 6}).Draw(t, "nops")
+	for i := 0; i < nops; i++ {
+		op := c20sOp{After: rapid.SampledFrom([]int{c20sAfterNothing, c20sAfterNothing, c20sAfterAddress, c20sAfterFlags, c20sAfterMerge, c20sAfterUnwrap}).Draw(t, "after")}
+		// a host asked before comes back now and then (a block matched twice piles up its CAFiles if state leaks)
+		if i > 0 && rapid.IntRange(0, 3).Draw(t, "again") == 0 {
+			op.Host = c.Ops[rapid.IntRange(0, i-1).Draw(t, "which")].Host
+		} else {
+			op.Host = host.Draw(t, "host")
+		}
+		c.Ops = append(c.Ops, op)
+	}
+	return c
+}
+
+func TestVerifC20MatchHostSequences(t *testing.T) {
+	vlib.Drive(t, vlib.Spec[c20sCase]{ID: "C20", Quick: 10000, Gen: c20sGen, Run: c20sRun})
 }
